@@ -806,8 +806,12 @@ public:
         f["extern"] = FD->isExternallyVisible();
         f["templated"] = FD->isTemplated() || FD->isTemplateInstantiation();
         json::Array params;
-        for (auto P : FD->parameters())
-            params.push_back(json::Object{{"decl", usr(P)}, {"name", P->getNameAsString()}, {"type", typeStr(P->getType())}});
+        for (auto P : FD->parameters()) {
+            json::Object po{{"decl", usr(P)}, {"name", P->getNameAsString()}, {"type", typeStr(P->getType())}};
+            if (P->hasDefaultArg() && !P->hasUnparsedDefaultArg() && !P->hasUninstantiatedDefaultArg() && P->getDefaultArg())
+                po["default"] = dumpOpt(P->getDefaultArg());
+            params.push_back(std::move(po));
+        }
         f["params"] = std::move(params);
         if (auto MD = dyn_cast<CXXMethodDecl>(FD)) {
             f["class"] = qname(MD->getParent());
